@@ -36,6 +36,7 @@ KANI = [
     H("c03_write_term_var", "write_term(variable c) == '?' c", bound="1 ASCII byte", timeout=900),
     H("c03_write_term_lit_plain", "xsd:string literal: '\"' esc(lex) '\"' and no datatype suffix", bound="concrete literal \"x\"", timeout=900),
     H("c03_write_term_lit_datatype", "other datatype: '\"' esc(lex) '\"^^<' dt '>'", bound="concrete literal \"x\"^^<d>", timeout=900),
+    H("c03_nq_statement_line", "NqSerializer: one statement per line 's p o[ g].\\n'; the graph name is appended only for named-graph quads", bound="1-byte ASCII components, one quad", timeout=1500),
     H("c03_write_term_lit_lang", "language-tagged literal: '\"' esc(lex) '\"@' tag", bound="lexical form 1 ASCII byte (all values), tag 2 ASCII bytes", tiers=("thorough",), timeout=1800),
 ]
 
@@ -46,6 +47,7 @@ def run_kani_part(rep):
     with overlay.Scratch(ID) as s:
         common.apply_common(s)
         s.append("turtle/src/serializer/nt.rs", common.expand(open(core.VERIF + "/contracts/esc/kani_nt.rs").read(), "turtle"))
+        s.append("turtle/src/serializer/nq.rs", open(core.VERIF + "/contracts/esc/kani_nq_accessor.rs").read())
         # the quoted_string harnesses need no stubs (no term code); only check the stub lines on write_term ones
         return kani_unit.run_harnesses(rep, s, "sophia_turtle", KANI, jobs=8, need_stubs=False)
 
